@@ -1119,6 +1119,18 @@ namespace Pistache::Http
     void Handler::onInput(const char* buffer, size_t len,
                           const std::shared_ptr<Tcp::Peer>& peer)
     {
+        // After a request that was refused while it was read (too large, malformed) nothing
+        // tells where the next request begins: what follows is the rest of the refused one and
+        // must not be parsed as new requests. The idle scan closes the connection.
+        static constexpr const char* RefusedData = "__Refused";
+        if (peer->tryGetData(RefusedData))
+            return;
+        bool complete = false;
+        auto refused  = [&] {
+            if (!complete)
+                peer->putData(RefusedData, std::make_shared<bool>(true));
+        };
+
         auto parser   = getParser(peer);
         auto& request = parser->request;
         try
@@ -1134,6 +1146,7 @@ namespace Pistache::Http
 
             if (state == Private::State::Done)
             {
+                complete = true;
                 ResponseWriter response(request.version(), transport(), this, peer);
 
 #ifdef LIBSTDCPP_SMARTPTR_LOCK_FIXME
@@ -1162,6 +1175,7 @@ namespace Pistache::Http
             ResponseWriter response(request.version(), transport(), this, peer);
             response.send(static_cast<Code>(err.code()), err.reason());
             parser->reset();
+            refused();
         }
 
         catch (const std::exception& e)
@@ -1169,6 +1183,7 @@ namespace Pistache::Http
             ResponseWriter response(request.version(), transport(), this, peer);
             response.send(Code::Internal_Server_Error, e.what());
             parser->reset();
+            refused();
         }
     }
 
